@@ -21,7 +21,7 @@ ASSUMPTIONS = ["CPython float/Fraction arithmetic", "nvmon.ref exact reference m
 FLOORS = {'quick': {'single': 1500, 'list': 300, 'ders0': 300, 'grid_point': 1000, 'grid_shape': 150, 'meval': 2000,
                     'corner': 300},
           'thorough': {'single': 15000, 'grid_point': 10000, 'meval': 20000}}
-MANDATORY_TAGS = ['large', 'ss:delta>2/3', 'container-grid', 'pdim3', 'rational', 'u:knot_full', 'u:knot', 'u:start', 'u:end', 'kv:unclamped', 'kv:range',
+MANDATORY_TAGS = ['square', 'large', 'ss:delta>2/3', 'container-grid', 'pdim3', 'rational', 'u:knot_full', 'u:knot', 'u:start', 'u:end', 'kv:unclamped', 'kv:range',
                   'ss:distinct', 'ss:one-direction', 'route:list', 'span:binary', 'dim4']
 TECHNIQUE = ("runtime monitoring: exact-arithmetic post-condition on every evaluators.*.evaluate() call (M-eval hook) and on "
              "each public evaluation entry point, under a class-enumerating seeded workload")
@@ -98,6 +98,8 @@ def check(case, ctx):
     ctx.nontriv(interior or (sd['rational'] and len(set(sd.get('weights', [1]))) > 1))
     if sd.get('large'):
         ctx.tag('large')
+    if sd.get('square'):
+        ctx.tag('square')
     ctx.tag('pdim%d' % pdim, 'rational' if sd['rational'] else 'nonrational', 'dim%d' % len(sd['ctrlpts'][0]),
             'span:%s' % sd.get('span', 'default'), 'route:%s' % sd.get('route', 'per-direction'))
     for c in sd['kvcls']:
